@@ -11,7 +11,7 @@ import tempfile
 import numpy as np
 
 from ..engine.explore import Outcome, Report, OUT
-from ..engine import history, forkpool
+from ..engine import history, forkpool, guard
 from . import signals
 
 PID = 'C18'
@@ -174,14 +174,61 @@ def pristine(variant):
     return _pristine[variant]
 
 
+def base(variant):
+    return variant.split('+')[0]
+
+
+PRESET = {'max_imfs': 3, 'mask_amp_mode': 'ratio_sig', 'mask_amp': np.array([1.0, 0.5, 0.75, 1.0, 1.0, 1.0, 1.0, 1.0, 1.0]),
+          'mask_freqs': np.array([0.3, 0.12, 0.05, 0.02, 0.01, 0.005, 0.002, 0.001, 0.0005])}
+
+
 def fresh(variant):
+    """A fresh default configuration; the root 'mask_sift+arrays' starts from a non-initial state instead: a masked
+    sift configured with array-valued mask options (the way a user stores per-IMF amplitudes and frequencies)."""
     import emd.sift as S
-    pristine(variant)
-    cfg = S.get_config(variant)
+    pristine(base(variant))
+    cfg = S.get_config(base(variant))
+    if variant.endswith('+arrays'):
+        for k, v in PRESET.items():
+            cfg[k] = copy.deepcopy(v)
     model = {}
     for k in cfg:
         model[k] = copy.deepcopy(cfg[k])
     return cfg, model
+
+
+USE_VARIANTS = ('sift', 'mask_sift')
+
+
+def usable(model):
+    """False for states whose location-padding options differ from the default odd reflection: the padding loop of
+    the extrema stage does not end for them (an even reflection never reaches beyond the edges), so a call would only
+    run into the watchdog."""
+    e = model.get('extrema_opts')
+    if isinstance(e, dict) and 'loc_pad_opts' in e:
+        return norm(e['loc_pad_opts']) == {'mode': 'reflect', 'reflect_type': 'odd'}
+    return True
+
+
+def use(cfg, variant, seed, model):
+    """Drive the variant with the configuration itself (unpacked, and through its callable); errors from invalid option
+    values are the library's business and are ignored here - what matters is that USING a configuration does not change it."""
+    if base(variant) not in USE_VARIANTS or not usable(model):
+        return 0
+    x = the_signal(0, seed)
+    n = 0
+    try:
+        with forkpool.installed(forkpool.SerialMP()), guard.watchdog(5):
+            call_variant(base(variant), x, **cfg)
+            n += 1
+            np.random.seed(9)
+            cfg.get_func()(x.copy())
+            n += 1
+    except guard.CaseTimeout:
+        pass
+    except Exception:
+        pass
+    return n
 
 
 def plain(cfg):
@@ -213,14 +260,25 @@ def transition(root, hist):
     cfg, model = fresh(variant)
     viols = []
     d = '%s history %s' % (variant, [fmt(o) for o in hist])
+    ntrans = 1
     for op in hist[:-1]:
         model_apply(model, op)
         try:
             real_apply(cfg, op)
         except Exception:
             pass
+        use(cfg, variant, seed, model)         # every state of a history is also a state in which the configuration was used
     op = hist[-1]
     before = canon(model)
+    if len(hist) == 1:
+        ntrans += use(cfg, variant, seed, model)
+        try:
+            if plain(cfg) != norm(model):
+                diff = [k for k in plain(cfg) if plain(cfg).get(k) != norm(model).get(k)]
+                viols.append(('changed-by-use', '%s: driving %s with the %s configuration changed its entries %r' % (
+                    d, base(variant), 'initial' if '+' not in variant else 'preset', diff)))
+        except Exception as e:
+            viols.append(('changed-by-use:raise', '%s: reading the configuration after use raised %r' % (d, e)))
     # the file route is exercised as "save, edit, save again to the same path": first save = the state before the edit
     fn = tmpfile()
     try:
@@ -256,7 +314,7 @@ def transition(root, hist):
     try:
         f = cfg.get_func()
         bound = {k: norm(v) for k, v in f.keywords.items()}
-        if bound != norm(model) or getattr(f.func, '__name__', None) != variant:
+        if bound != norm(model) or getattr(f.func, '__name__', None) != base(variant):
             viols.append(('get_func:stale', '%s: get_func() binds %r for %s, the configuration holds %r' % (
                 d, sorted(set(map(str, bound.items())) ^ set(map(str, norm(model).items())))[:4], getattr(f.func, '__name__', None), '...')))
     except Exception as e:
@@ -264,16 +322,24 @@ def transition(root, hist):
             viols.append(('get_func:raise', '%s: get_func() raised %r' % (d, e)))
     # editing one configuration object must not leak into the defaults handed out afterwards
     try:
-        again = plain(S.get_config(variant))
-        if again != pristine(variant):
-            diff = [k for k in again if again[k] != pristine(variant).get(k)]
-            viols.append(('defaults-polluted', '%s: a fresh get_config(%r) now differs from the defaults in %r' % (d, variant, diff)))
-            _pristine.pop(variant, None)
+        again = plain(S.get_config(base(variant)))
+        if again != pristine(base(variant)):
+            diff = [k for k in again if again[k] != pristine(base(variant)).get(k)]
+            viols.append(('defaults-polluted', '%s: a fresh get_config(%r) now differs from the defaults in %r' % (d, base(variant), diff)))
+            _pristine.pop(base(variant), None)
     except Exception as e:
         viols.append(('defaults-polluted:raise', '%s: get_config raised %r' % (d, e)))
+    if not viols:
+        # ... and using the configuration in its new state does not change it either
+        ntrans += use(cfg, variant, seed, model)
+        try:
+            if plain(cfg) != norm(model):
+                diff = [k for k in plain(cfg) if plain(cfg).get(k) != norm(model).get(k)]
+                viols.append(('changed-by-use', '%s: driving %s with the configuration changed its entries %r' % (d, base(variant), diff)))
+        except Exception as e:
+            viols.append(('changed-by-use:raise', '%s: reading the configuration after use raised %r' % (d, e)))
     key = canon(model)
     changed = key != before
-    ntrans = 1
     if not viols:
         # persistence: both YAML routes
         want = norm(model)
@@ -285,7 +351,7 @@ def transition(root, hist):
                 else:
                     back = S.SiftConfig.from_yaml_stream(cfg.to_yaml_text())
                 ntrans += 1
-                if back.sift_type != variant:
+                if back.sift_type != base(variant):
                     viols.append(('yaml:%s:sift-type' % route, '%s: sift type %r after the %s round trip' % (d, back.sift_type, route)))
                 elif not isinstance(back.store, dict) or plain(back) != want:
                     viols.append(('yaml:%s:options' % route, '%s: options differ after the %s round trip' % (d, route)))
@@ -297,7 +363,7 @@ def transition(root, hist):
             try:
                 with forkpool.installed(forkpool.SerialMP()):
                     kw = copy.deepcopy(model)
-                    direct = call_variant(variant, x, **kw)
+                    direct = call_variant(base(variant), x, **kw)
                     np.random.seed(9)
                     reloaded = S.SiftConfig.from_yaml_file(fn).get_func()(x.copy())
                     reloaded = np.asarray(reloaded[0] if isinstance(reloaded, tuple) else reloaded)
@@ -362,8 +428,8 @@ def run(ctx):
     dcases = [('defaults', v, si, ctx.seed) for v in VARIANTS for si in range(b['signals'])]
     rep.merge(ctx.explore(lambda: dcases, check_defaults, timeout_s=TIMEOUT))
     roots = [(v, ctx.seed) for v in b['full_variants']]
-    r0 = history.bfs([(v, ctx.seed) for v in VARIANTS if v not in b['full_variants']], ops_full(), transition, 1, dedup=True,
-                     timeout_s=TIMEOUT, serial=ctx.serial)
+    r0 = history.bfs([(v, ctx.seed) for v in VARIANTS if v not in b['full_variants']] + [('mask_sift+arrays', ctx.seed)], ops_full(),
+                     transition, 1 if ctx.tier == 'quick' else 2, dedup=True, timeout_s=TIMEOUT, serial=ctx.serial)
     rep.merge(r0)
     r1 = history.bfs(roots, ops_full(), transition, b['depth_full'], dedup=True, timeout_s=TIMEOUT, serial=ctx.serial)
     r2 = history.bfs([(v, ctx.seed) for v in b['small_variants']], ops_small(), transition, b['depth_small'], dedup=True,
